@@ -60,6 +60,28 @@ CONCRETE = {
 }
 
 
+# skeletons on which a Quantizer with a past (earlier recipes entered, resolved
+# and quantized with) is exercised
+HISTORY_SKELETONS = ('single_FC', 'single_ADD', 'single_CONCATENATION',
+                     'chain_fc_tanh', 'fc_fc', 'tensor_2_consumers',
+                     'intermediate_is_output', 'diamond',
+                     'const_shared_by_two_ops', 'two_subgraphs_independent',
+                     'tensor_feeds_concat_and_other', 'split_add')
+
+
+def _pasts():
+  import json, os
+  d = {'DRQ': [P.rule('.*', '*', 'DRQ')], 'SRQ8': [P.rule('.*', '*', 'SRQ8')],
+       'WO': [P.rule('.*', '*', 'WO')], 'SRQ16': [P.rule('.*', '*', 'SRQ16')]}
+  for k, f in (('a8w8', 'default_a8w8_recipe.json'),
+               ('a16w8', 'default_a16w8_recipe.json'),
+               ('wi8', 'dynamic_wi8_afp32_recipe.json'),
+               ('w8float', 'default_af32w8float_recipe.json')):
+    with open(os.path.join(P.RECIPE_DIR, f)) as fh:
+      d[k] = json.load(fh)
+  return d
+
+
 def job_skeleton(job):
   prop = job.args['prop']
   skel = job.args['skeleton']
@@ -80,11 +102,14 @@ def job_skeleton(job):
                      'symbolic statistics')
   # the same Quantizer used before with other '*' recipes (resolution must be
   # a pure function of the final rule list)
-  if prop in ('C03', 'C01') and not skel.startswith('dag'):
-    pasts = {'DRQ': [P.rule('.*', '*', 'DRQ')], 'SRQ8': [P.rule('.*', '*', 'SRQ8')],
-             'WO': [P.rule('.*', '*', 'WO')], 'SRQ16': [P.rule('.*', '*', 'SRQ16')]}
-    for a, b in (('DRQ', 'SRQ8'), ('SRQ8', 'WO'), ('SRQ16', 'DRQ'),
-                 ('WO', 'SRQ16')):
+  if prop in ('C03', 'C01', 'C08') and skel in HISTORY_SKELETONS:
+    pasts = _pasts()
+    pairs = (('DRQ', 'SRQ8'), ('SRQ8', 'WO'), ('SRQ16', 'DRQ'), ('WO', 'SRQ16'))
+    if prop == 'C08':
+      # shipped recipes only: a Quantizer that already quantized with one
+      # shipped recipe is given another one
+      pairs = (('wi8', 'a8w8'), ('a8w8', 'wi8'), ('a16w8', 'w8float'))
+    for a, b in pairs:
       en, cs = P.explore_case(skel, f'after:{a}:then:{b}', mb, pasts[b],
                               ORACLES[prop], history=[pasts[a]])
       st.merge(en.stats)
@@ -207,8 +232,7 @@ def replay(prop, c):
   d = c['data']
   if d.get('history'):
     fam_recipe = d['recipe']
-    pasts = {'DRQ': [P.rule('.*', '*', 'DRQ')], 'SRQ8': [P.rule('.*', '*', 'SRQ8')],
-             'WO': [P.rule('.*', '*', 'WO')], 'SRQ16': [P.rule('.*', '*', 'SRQ16')]}
+    pasts = _pasts()
     final = pasts[fam_recipe.split(':')[-1]]
     import copy as _copy
     from ai_edge_quantizer import quantizer as _ql
